@@ -199,7 +199,21 @@ class BaseNode(Node):
         if isinstance(nodes, str):   # block import
             node.value_raw = nodes
         else:                        # node import
-            node.value_raw = nodes[0].value_raw
+            ref = nodes[0]
+            if not isinstance(ref.value, Type):    # referenced node has no (typed) value yet
+                value_raw, units_raw = ref.value_raw, ref.units_raw
+            else:                    # current value of the referenced node (after all its modifications)
+                value_raw = ref.value.value
+                units_raw = ref.value.unit if isinstance(ref.value, NumberType) else ref.units_raw
+                if isinstance(value_raw, (list, np.ndarray)):
+                    value_raw = json.dumps(np.array(value_raw).tolist())
+                elif value_raw is None:
+                    value_raw = Keyword.NONE
+                elif isinstance(value_raw, (bool, np.bool_)):
+                    value_raw = Keyword.TRUE if value_raw else Keyword.FALSE
+                else:
+                    value_raw = str(value_raw)
+            node.value_raw = value_raw
             if not node.units_raw:
-                node.units_raw = nodes[0].units_raw
+                node.units_raw = units_raw
         
